@@ -21,7 +21,8 @@ imported) plus damaged variants:
       and the model's output on each component equals the implementation's outcome on the stand-alone Python program
       (whole-program correspondences of gen_main / gen_main2);
   (c) embed_ok is evaluated (distribution reported) and, whenever every component builds, the block / prefix relation
-      between the model outputs is evaluated (a failure with embed_ok = true is a disagreement).
+      between the model outputs is evaluated (a failure with embed_ok = true is a disagreement); whenever the pipeline of a
+      component fails, the joint model's build is evaluated (a success with embed_ok = true is a disagreement).
 """
 import copy
 import json
@@ -39,7 +40,7 @@ PROOFS = [('GenEmbed', 'PropEmbed.v')]
 FAMILY = 'GenEmbed'
 REQUIRES = ['From SFC.Base Require Import Res Str.', 'From SFC.Gen Require Import Fx Zone.',
             'From SFC.GenMain2 Require Import Program Classes Main CaseDefs Program2 Main2 CaseDefs2.',
-            'From SFC.GenEmbed Require Import EmbDefs JointDefs Joint.']
+            'From SFC.GenEmbed Require Import EmbDefs JointDefs Joint EvalOk CaseDefs.']
 
 OutOfLanguage = gen_main.OutOfLanguage
 
@@ -82,13 +83,62 @@ def coq_ext(k):
     return 'None' if k is None else '(Some %s)' % coq_nat(k)
 
 
+def make_joint(singles, pos):
+    """The joint program harness/c18.py builds from stand-alone ones: the declarations of the economies one after the other
+    (an unused ExternalSector before economy `pos`, or after the last one), then the user operations of all of them."""
+    n = len(singles)
+    steps = []
+    for j in range(n):
+        if pos is not None and j == pos:
+            steps.append({'kind': 'external', 'id': 'ext'})
+        steps.extend(copy.deepcopy(singles[j]['steps']))
+    if pos is not None and pos >= n:
+        steps.append({'kind': 'external', 'id': 'ext'})
+    decl = [st for st in steps if st['kind'] != 'op']
+    ops = [st for st in steps if st['kind'] == 'op']
+    return {'maxtime': 4, 'steps': decl + ops, 'shape': 'joint'}
+
+
 def gen_cases(ctx, n):
+    """(singles, joint, codes, label): the well-formed stream is exactly harness/c18.py part (ii) (its embed_case is called);
+    the malformed stream breaks one part of the side condition or one component."""
     out = []
     for i in range(n):
         seed = ctx.rng.randrange(10 ** 9)
         singles, joint, codes, with_ext = c18.embed_case(ctx.rng, seed)
-        out.append((singles, joint, codes, 'plain'))
+        r = ctx.rng.random()
+        if r < 0.72:
+            out.append((singles, joint, codes, 'plain'))
+            continue
+        pos = ext_position(singles, joint)
+        if r < 0.82 and all(p.get('shape') == 'single' for p in singles[:2]):
+            # two economies with the same country code (hence the same currency): outside the quantifier; the joint model
+            # refuses the second country
+            s2 = copy.deepcopy(singles)
+            for st in s2[1]['steps']:
+                if st['kind'] == 'country':
+                    st['code'] = codes[0]
+            out.append((s2, make_joint(s2, pos), [codes[0]] + codes[:1] + codes[2:], 'same_country_code'))
+        elif r < 0.92:
+            # one economy damaged (error paths, overwritten definitions): the stand-alone build may fail
+            s2 = copy.deepcopy(singles)
+            j = ctx.rng.randrange(len(s2))
+            d = gen_main.damage(ctx.rng, s2[j])
+            if d is None or any(st['kind'] == 'country' and st['id'] in ('cdup', 'clate') for st in d[0]['steps']):
+                out.append((singles, joint, codes, 'plain'))
+                continue
+            s2[j] = {'maxtime': 4, 'steps': d[0]['steps'], 'shape': s2[j].get('shape')}
+            out.append((s2, make_joint(s2, pos), codes, 'damaged:' + d[1]))
+        else:
+            out.append((singles, joint, codes, 'plain'))
     return out
+
+
+WHY = {0: 'holds', 1: 'no economy', 2: 'static naming conditions of a component', 3: 'country codes not pairwise different',
+       4: 'currencies not pairwise different', 5: 'NUMERAIRE used as a country code', 11: 'evaluated: zone description',
+       12: 'evaluated: calls (market suppliers / class texts)', 13: 'evaluated: supplier references', 14: 'evaluated: flow references',
+       15: 'evaluated: exogenous specifications', 16: 'evaluated: initial-condition references', 17: 'evaluated: row texts',
+       18: 'evaluated: lagged row of a market names a bare supply variable'}
 
 
 TRUSTED = [
@@ -98,13 +148,56 @@ TRUSTED = [
     'the joint Python program built by harness/c18.py embed_case; expression texts enter the model with blanks removed (as '
     'Term(..., is_blob=True) stores them)',
 ]
-ASSUMPTIONS = []
+ASSUMPTIONS = [
+    'GenEmbed: Main2_embedding holds under the decidable side condition embed_ok ps ext: at least one economy; per economy the '
+    'static conditions comp_static (steps refer to declared sectors only, expression texts without white space, exogenous '
+    'specifications not starting with an identifier containing "_", clean sector / good / labour codes, country codes made of '
+    'letters and digits, no market code of the form <country>_x); country codes (and EXT) pairwise different, NUMERAIRE not a '
+    'country code; and conditions evaluated on each economy\'s own stand-alone construction and run (static description of its '
+    'sectors, residual suppliers found by search are not markets, supplier / flow / exogenous / initial-condition references '
+    'inside the economy, and for economies that gain the prefix the syntactic text_ok of their final equations and, for the '
+    'semantic corollary, that no lagged row of a market names a bare SUP_<code> variable); evaluated on every generated case and '
+    'reported in extra.embed_model.  Main2_embedding_err (an economy whose pipeline fails alone makes the joint model fail) is '
+    'about the pipeline WITHOUT the final "There are no equations in the system" check of Model.main(): an economy without '
+    'equations fails alone while a joint model containing it builds (EmbedWitness.empty_economy_refuted)',
+]
 
 
-def extra(ctx, out, quick_n=24, thorough_n=300):
+def _run_nat_cases(cases, tag, shard=6, jobs=8):
+    """Evaluate Coq terms of type nat; returns (values or None per case, errors)."""
+    import re
+    from concurrent.futures import ThreadPoolExecutor
+    header = common.STD_HEADER + '\n'.join(REQUIRES) + '\n'
+    shards = [(i, cases[i:i + shard]) for i in range(0, len(cases), shard)]
+    vals, errors = [None] * len(cases), []
+
+    def one(sh):
+        off, cs = sh
+        body = 'Eval vm_compute in (%s).' % coq_list(['(%s)' % c for c in cs])
+        rc, out_ = common.coq_run(FAMILY, header, body, tag=tag)
+        return off, cs, rc, out_
+
+    with ThreadPoolExecutor(max_workers=jobs) as ex:
+        for off, cs, rc, out_ in ex.map(one, shards):
+            flat = ' '.join(out_.split())
+            m = re.search(r'= \[(.*?)\](?:%nat)? : list nat', flat)
+            if rc != 0 or not m:
+                errors.append({'offset': off, 'n': len(cs), 'output': out_[-1500:]})
+                continue
+            xs = [int(x.replace('%nat', '')) for x in m.group(1).split(';') if x.strip()]
+            if len(xs) != len(cs):
+                errors.append({'offset': off, 'n': len(cs), 'output': 'case count mismatch'})
+                continue
+            for j, x in enumerate(xs):
+                vals[off + j] = x
+    return vals, errors
+
+
+def extra(ctx, out, quick_n=22, thorough_n=300):
     n = ctx.scale(quick_n, thorough_n)
-    dist = {'cases': 0, 'economies': 0, 'with_external': 0, 'federated': 0, 'out_of_language': 0, 'labels': {}}
-    jcases, ecases, wcases, ccases, metas, cmetas = [], [], [], [], [], []
+    dist = {'cases': 0, 'economies': 0, 'with_external': 0, 'federated': 0, 'out_of_language': 0, 'labels': {}, 'embed_ok': {},
+            'joint_errors': {}, 'component_errors': 0}
+    jcases, ecases, wcases, tcases, ccases, metas, cmetas, labels, xcases = [], [], [], [], [], [], [], [], []
     distinct = set()
     for singles, joint, codes, label in gen_cases(ctx, n):
         try:
@@ -119,41 +212,80 @@ def extra(ctx, out, quick_n=24, thorough_n=300):
         ps = coq_list(cps)
         ext = coq_ext(k)
         resj = gen_main.run_impl(joint)
+        meta = {'kind': 'embed_model', 'label': label, 'singles': [gen_common.strip_prog(p) for p in singles],
+                'joint': gen_common.strip_prog(joint), 'codes': codes, 'ext': k}
         jcases.append('joint_case %s %s %s' % (ps, ext, cj))
         ecases.append('embed_case %s %s' % (ps, ext))
-        wcases.append('embed_why %s %s' % (ps, ext))
-        # the implementation on the joint Python program against the model on the theorem's joint program
+        tcases.append('embed_thm_case %s %s' % (ps, ext))
+        wcases.append('embed_ok_why %s %s' % (ps, ext))
+        xcases.append('embed_err_why %s %s' % (ps, ext))
+        metas.append(meta)
+        labels.append(label)
+        # the implementation on the joint Python program against the model on the theorem's joint program, and on the rendered one
         ccases.append('main2_case (joint %s %s) %s' % (ps, ext, gen_rename.expected(resj)))
-        cmetas.append({'kind': 'embed_model', 'what': 'joint', 'singles': [gen_common.strip_prog(p) for p in singles],
-                       'joint': gen_common.strip_prog(joint), 'codes': codes})
+        cmetas.append(dict(meta, what='theorem joint program vs implementation'))
         ccases.append(gen_main2.emit_case(rawj, resj))
-        cmetas.append(cmetas[-1])
+        cmetas.append(dict(meta, what='rendered joint program vs implementation'))
+        comp_err = False
         for p, r in zip(singles, raw):
-            ccases.append(gen_main.emit_case(r, gen_main.run_impl(p)))
-            cmetas.append({'kind': 'embed_model', 'what': 'component', 'singles': [gen_common.strip_prog(p)], 'joint': None, 'codes': codes})
-        metas.append({'kind': 'embed_model', 'singles': [gen_common.strip_prog(p) for p in singles], 'joint': gen_common.strip_prog(joint),
-                      'codes': codes, 'ext': k})
+            res1 = gen_main.run_impl(p)
+            comp_err = comp_err or res1[0] == 'err'
+            ccases.append(gen_main.emit_case(r, res1))
+            cmetas.append({'kind': 'embed_model', 'label': label, 'what': 'component vs implementation',
+                           'singles': [gen_common.strip_prog(p)], 'joint': None, 'codes': codes, 'ext': None})
         dist['cases'] += 1
         dist['economies'] += len(singles)
         dist['with_external'] += 1 if k is not None else 0
         dist['federated'] += sum(1 for p in singles if p.get('shape') == 'federated')
         dist['labels'][label] = dist['labels'].get(label, 0) + 1
+        dist['component_errors'] += 1 if comp_err else 0
+        if resj[0] == 'err':
+            dist['joint_errors'][resj[1]] = dist['joint_errors'].get(resj[1], 0) + 1
         distinct.add(json.dumps([resj], sort_keys=True, default=str))
+    whys, errs = _run_nat_cases(wcases, 'embw' + ctx.pid)
+    out.corr_errors.extend(errs)
     for title, cases, ms in (('joint_case (the theorem\'s joint program = the rendered joint Python program)', jcases, metas),
                             ('embed_case (block / prefix relation between the model outputs)', ecases, metas),
+                            ('embed_thm_case (embed_ok implies the relation: the statement of Main2_embedding, evaluated)', tcases, metas),
                             ('whole-program correspondence (model = implementation)', ccases, cmetas)):
         bad, errs = common.run_bool_cases(FAMILY, REQUIRES, cases, tag='emb' + ctx.pid, shard=6)
         out.corr_errors.extend(errs)
+        if cases is ecases:
+            # outside the quantifier of the theorem (two economies with one country code) the relation may fail: reported, not
+            # a disagreement (embed_thm_case is the obligation there)
+            outside = [i for i in bad if labels[i] == 'same_country_code']
+            dist['relation_fails_outside_side_condition'] = len(outside)
+            bad = [i for i in bad if labels[i] != 'same_country_code']
         for i in bad[:10]:
             out.disagreements.append({'embed_model': ms[i], 'obligation': title, 'coq': cases[i][:3000]})
         dist.setdefault('failed', {})[title.split(' ')[0]] = len(bad)
-    out.evaluations += len(jcases) + len(ecases) + len(ccases)
+    # the side condition must hold on the well-formed stream (otherwise the theorem would say nothing about it)
+    for i, w in enumerate(whys):
+        if w is None:
+            continue
+        key = '%s: %s' % ('plain' if labels[i] == 'plain' else 'malformed', WHY.get(w, str(w)))
+        dist['embed_ok'][key] = dist['embed_ok'].get(key, 0) + 1
+        if labels[i] == 'plain' and w != 0:
+            out.disagreements.append({'embed_model': metas[i], 'obligation': 'embed_ok fails on a well-formed case: %s' % WHY.get(w, str(w)),
+                                      'coq': wcases[i][:3000]})
+    # the error direction (Main2_embedding_err, evaluated as a cross-check): an economy whose pipeline fails alone makes the
+    # joint model fail
+    xs, errs = _run_nat_cases(xcases, 'embx' + ctx.pid)
+    out.corr_errors.extend(errs)
+    dist['error_direction'] = {'component fails, joint fails too': sum(1 for x in xs if x == 1),
+                               'component fails, embed_ok, joint builds': sum(1 for x in xs if x == 2),
+                               'component fails, outside embed_ok, joint builds': sum(1 for x in xs if x == 3)}
+    for i, x in enumerate(xs):
+        if x == 2:
+            out.disagreements.append({'embed_model': metas[i], 'obligation': 'an economy fails alone, embed_ok holds, but the joint model builds',
+                                      'coq': xcases[i][:3000]})
+    out.evaluations += len(jcases) + len(ecases) + len(tcases) + len(ccases) + len(xcases)
     out.nontrivial += len(distinct)
     out.extra['embed_model'] = dist
     out.trusted_base = list(out.trusted_base or []) + TRUSTED
     out.assumptions = list(out.assumptions or []) + ASSUMPTIONS
     if metas:
-        out.samples.append({'embed_model': {'codes': metas[0]['codes'], 'ext': metas[0]['ext']}})
+        out.samples.append({'embed_model': {'codes': metas[0]['codes'], 'ext': metas[0]['ext'], 'label': metas[0]['label']}})
     return out
 
 
